@@ -13,6 +13,10 @@ text each handler emitted and "ack i" after the i-th logging call returned, and 
   compress  dies inside call k+1 in the compression callable of the rotation
   return / sys_exit / unhandled    normal ways out of the interpreter (atexit must stop every handler)
 
+Round 5: file sinks with explicit mode / buffering / delay / watch (the file renamed away between two calls), io
+objects of every layering as stream sinks, block-buffered sinks at exit, a stream that ends the worker thread,
+records the worker cannot un-pickle, and an in-process grid over everything a stream object may expose.
+
 The parent then reads the directory.  DIRECT ORACLE (model-independent): every acked text is on disk,
 whole and in order, followed by nothing but (a prefix of) the text in flight; at normal exit every
 handler was removed and stopped, queues drained, files closed, end-of-life compression / retention
@@ -40,24 +44,31 @@ AUDIT_FILE = "LoguruModel/Audit/C09.lean"
 DRIVER = "C09"
 RULE = ("one case = one real child process (or a chain of two for restart cases): (sinks, message sequence, "
         "crash point k, way of dying); message shapes: ASCII, multi-line, CR/CRLF, non-ASCII, > 8 KiB, empty, "
-        "with exception text, raw with/without line end, serialize, dynamic formats; non-trivial = at least one "
-        "call returned before the death (k >= 1) or an exit program with queued messages; distinct by the whole spec")
+        "with exception text, raw with/without line end, serialize, dynamic formats, records that cannot be "
+        "un-pickled; sinks: file (default and explicit mode / buffering / delay / watch with the file moved away), "
+        "streams of every layering (TextIOWrapper over BufferedWriter / raw, line_buffering, write_through, tiny "
+        "buffers, stdout/stderr, proxies, user classes, a stream ending the worker thread); non-trivial = at least one "
+        "call returned before the death (k >= 1) or an exit program with queued messages; distinct by the whole spec; "
+        "plus an in-process grid of 64 stream objects (which of flush/stop they expose, and how)")
 TRUSTED = [
     "CPython io (TextIOWrapper line buffering, BufferedWriter) is modelled in Buffer/Model.lean, not verified; "
     "validated by the real-process stream on every run",
     "write(2) into the page cache survives the death of the process (not power loss - not claimed)",
     "the interpreter runs atexit callbacks on return from main / sys.exit / unhandled exception",
 ]
-ASSUMPTIONS = ["Linux, utf8 file sinks, newline translation is the identity", "watch=False, delay=False",
+ASSUMPTIONS = ["Linux, utf8 file sinks, newline translation is the identity",
+               "the verdict of watch=True's stat comparison and the size-driven spills of CPython's io layers are oracles of the model",
                "rotation verdicts and compression codecs are oracles of the model (C07/C19/C18 own them)"]
 
 F7_KEY = "F7-no-newline-stays-buffered"
+# keys of findings that are waiting for the integrator's decision: counted and noted, not reported (none at present)
+PENDING_FINDINGS = []
 PY = "/venv/bin/python"
 CHILD_TIMEOUT = 40.0
 
 # ----------------------------------------------------------------------------- the child program
 CHILD_SRC = r'''
-import atexit, json, os, sys, time
+import atexit, builtins, json, os, sys, time
 spec = json.load(open(sys.argv[1], encoding="utf8"))
 FD = spec["fd"]
 def report(s):
@@ -104,7 +115,7 @@ if spec.get("fast_timeouts"):
             return super().join(min(timeout, 0.05))
     lh.Thread = ShimThread
 
-import builtins, pickle
+import pickle
 def _rebuild_fails(name):
     cls = getattr(builtins, name, None) or getattr(pickle, name)
     if cls is UnicodeDecodeError:
@@ -130,8 +141,9 @@ FORMATS = {"static": "{message}", "dyn_nl": dyn_nl, "dyn_nonl": dyn_nonl, "dyn_e
 
 class Stream:
     encoding = "utf8"   # same exception-formatting symbols as the capture sink
-    def __init__(self, name, path, buffering, slow, stoppable, flushable, inner=None, die_on=None):
+    def __init__(self, name, path, buffering, slow, stoppable, flushable, inner=None, die_on=None, die_exc=None):
         self.name, self.slow, self.gated, self.die_on = name, slow, False, die_on
+        self.die_exc = die_exc or "SystemExit"
         if inner:
             self.f = open_impl(inner, path)
         else:
@@ -146,7 +158,10 @@ class Stream:
         if self.slow:
             time.sleep(self.slow)
         if self.die_on is not None and m.record["extra"]["i"] == self.die_on:
-            raise SystemExit(7)      # a BaseException: in the worker thread of an enqueued handler it ends the thread
+            # an Exception is reported and the worker goes on; SystemExit (a BaseException) ends the worker thread
+            if self.die_exc == "UnicodeEncodeError":
+                raise UnicodeEncodeError("ascii", "é", 0, 1, "refused by the stream")
+            raise getattr(builtins, self.die_exc)("refused by the stream")
         self.f.write(m)
     def _stop(self):
         report("stop " + self.name)
@@ -241,7 +256,7 @@ def make_stream0(s):
     if impl != "wrapper":
         return open_impl(impl, path)
     return Stream(s["name"], path, s.get("buffering", -1), s.get("slow", 0), bool(s.get("stoppable")),
-                  bool(s.get("flushable", True)), s.get("inner"), s.get("die_on"))
+                  bool(s.get("flushable", True)), s.get("inner"), s.get("die_on"), s.get("die_exc"))
 
 def capture(name):
     def sink(m):
@@ -882,11 +897,15 @@ def gen_cases(ctx):
               "messages": msgs, "die": {"mode": rng.choice(["return", "sys_exit", "unhandled"])}}
         st.update(ENVIRONMENTS[rep % 3])
         add("exit", [st])
-    # B5: the worker thread of an enqueued handler has ENDED before the exit (its stream raised SystemExit): the exit
-    #     must not hang, the handler is removed, its stream stopped; the other handler is complete
-    for rep in range(ctx.n(1, 4) * boost):
+    # B5: an enqueued stream that REFUSES one message: with an Exception (any class: reported, the worker goes on, every
+    #     other message must be written) - and, as an observation only, with SystemExit (the worker thread ends; the
+    #     exit must not hang, the stream is stopped, the other handler is complete)
+    SINK_ERRORS = ["ValueError", "OSError", "RuntimeError", "KeyError", "TypeError", "UnicodeEncodeError", "BrokenPipeError",
+                   "EOFError", "MemoryError", "StopIteration", "AssertionError", "BlockingIOError", "Exception"]
+    for rep in range(ctx.n(2, 8) * boost):
         msgs = [m for m in gen_exit_messages(rng, 8) if len(m["text"]) < 200][:5]
-        st = {"sinks": [stream_sink(enqueue=True, stoppable=True, die_on=rng.range(1, max(1, len(msgs)))),
+        exc = "SystemExit" if rep % 2 == 0 else rng.choice(SINK_ERRORS)
+        st = {"sinks": [stream_sink(enqueue=True, stoppable=True, die_on=rng.range(1, max(1, len(msgs) - 1)), die_exc=exc),
                         file_sink(enqueue=True, compression="gz")],
               "messages": msgs, "die": {"mode": rng.choice(["return", "sys_exit", "unhandled"])}}
         add("exit", [st])
@@ -1239,13 +1258,23 @@ def judge(ctx, case, res, lines_out):
         else:
             observed = decode(files.get(sink["path"], b""))
             dead = sink.get("die_on")
-            if dead is not None and sink.get("enqueue"):
-                # the stream itself ended the worker thread (SystemExit in write): what it had accepted before must be
-                # there, stop() must still be called, the exit must not hang; the rest is in no sink (not claimed)
+            base_exc = sink.get("die_exc", "SystemExit") in ("SystemExit", "KeyboardInterrupt", "GeneratorExit")
+            if dead is not None and sink.get("enqueue") and not base_exc:
+                # the stream refused ONE message with an Exception: reported, the worker goes on - every other message
+                # must be in the sink after the exit, in order
+                rest = "".join(tx.get(i, "") for i in range(1, n + 1) if i != dead)
+                if observed != rest:
+                    problems.append("the stream raised %s for message %d; every other message must have been written: "
+                                    "expected %r, found %r" % (sink["die_exc"], dead, rest[-160:], observed[-160:]))
+            elif dead is not None and sink.get("enqueue"):
+                # OBSERVATION, not a violation (design_notes/C09.md): a BaseException that is not an Exception ends the
+                # worker thread - an interpreter-level event outside the property's quantifier.  What is still checked:
+                # the exit does not hang, stop() is called, what had been written before is there, nothing foreign
                 before = "".join(tx.get(i, "") for i in range(1, dead))
                 if not observed.startswith(before) or not expected.startswith(observed):
                     problems.append("texts written before the worker ended are missing: expected %r…, found %r"
                                     % (before[-160:], observed[-160:]))
+                ctx.stat("observation:worker-ended-by-sink-baseexception")
             elif observed != expected and not (poisoned and observed == without):
                 problems.append("not every message reached the stream: expected %r, found %r"
                                 % (expected[-160:], observed[-160:]))
@@ -1253,7 +1282,12 @@ def judge(ctx, case, res, lines_out):
                 if rp["stops"].count(name) != 1:
                     problems.append("stream.stop() called %d times" % rp["stops"].count(name))
             toks = [call_tok(sink, m, tx.get(i + 1, "")) for i, m in enumerate(st["messages"])]
-            for q in ([0] if poisoned else sorted({0, n})):
+            refused = dead is not None and sink.get("enqueue") and not base_exc
+            if refused:
+                # reported and skipped by the worker, like an item it cannot read
+                toks = [("%d" % (int(t[0]) | 4)) + t[1:] if i + 1 == dead else t for i, t in enumerate(toks)]
+                dead = None
+            for q in ([0] if (poisoned or refused) else sorted({0, n})):
                 hf = 1 if sink.get("flushable", True) else 0
                 hs = 1 if sink.get("stoppable") else 0
                 delegated = bool(sink.get("proxy"))
@@ -1398,6 +1432,11 @@ def run(ctx):
                     ctx.note("F7 witness no longer reproduces: the raw text without newline was durable")
                     ctx.stat("f7_witness_not_reproduced")
             for what, key in viol:
+                if key in PENDING_FINDINGS:
+                    ctx.stat("pending_finding:" + key)
+                    if not any(key in x for x in getattr(ctx, "notes", [])):
+                        ctx.note("pending finding %s (not reported as a violation yet): %s" % (key, what[:300]))
+                    continue
                 ctx.violation(what, {"case": strip_case(case)}, key=key)
             ctx.sample({"kind": case["kind"], "die": die, "sinks": [s["name"] + ":" + s["kind"] for s in case["stages"][-1]["sinks"]],
                         "shapes": [m.get("shape") for m in case["stages"][-1]["messages"]]})
@@ -1451,7 +1490,7 @@ def run(ctx):
                 ctx.stat("disagreements")
                 io_only = case.get("io_only") or any(
                     (not s.get("flushable", True)) or (s["kind"] == "file" and s.get("buffering", 1) != 1 and case["kind"] == "crash")
-                    or s.get("die_on") is not None
+                    or (s.get("die_on") is not None and s.get("die_exc", "SystemExit") == "SystemExit")
                     for s in case["stages"][-1]["sinks"] if s["name"] == name)
                 if io_only:
                     ctx.broke("correspondence CPython-io (TextFile model)", "%s -> %s: %s" % (line[:200], o[:200], bad))
@@ -1509,6 +1548,7 @@ def replay(ctx, rep):
         print("files:", {k: len(v) for k, v in res["files"].items()})
         for what, key in viol:
             print("oracle:", what, ("[%s]" % key if key else ""))
+        viol = [(w, k) for w, k in viol if k not in PENDING_FINDINGS]
         bad_model = []
         if lines:
             try:
